@@ -110,7 +110,10 @@ Clean(x) ==
        ELSE /\ working' = [working EXCEPT !.t = [n \in TNames |-> IF n \in gone THEN 0 ELSE working.t[n]]]
             /\ UNCHANGED <<head, staged>> /\ Rec("Clean", [x |-> x, n |-> Cardinality(gone)], "ok")
 
-Next == \/ \E n \in Pick(TNames) : Create(n) \/ DropT(n) \/ Modify(n) \/ (\E m \in Pick(TNames) : Rename(n, m))
+\* simulation: modifications mostly hit tracked tables (the case in which an ignore pattern must NOT matter)
+Tracked == {n \in TNames : staged.t[n] # 0 /\ working.t[n] # 0}
+Next == \/ \E n \in Pick(TNames) : Create(n) \/ DropT(n) \/ (\E m \in Pick(TNames) : Rename(n, m))
+        \/ \E n \in Pick(IF Sim /\ Tracked # {} THEN Tracked ELSE TNames) : Modify(n)
         \/ \E p \in Pick(PatPalette), b \in Pick(BOOLEAN) : PutPat(p, b)
         \/ \E p \in Pick({x[1] : x \in working.ig}) : DelPat(p)
         \/ AddAll \/ CommitAll \/ ResetStaged
